@@ -311,6 +311,10 @@ impl Prop for C16 {
                 }
             };
             ops.push(op.clone());
+            let risky = matches!(&op, Op::Line(t) if t.contains("DIM") || t.matches(',').count() >= 3 || t.len() > 600);
+            if ctx.announce_all || risky {
+                ctx.announce(&Case { ops: ops.clone() });
+            }
             // Settle hides intermediate boundaries: expand it into ticks so every boundary is probed
             let singles: Vec<Op> = match &op {
                 Op::Settle(n) => vec![Op::Tick; *n as usize],
